@@ -850,7 +850,18 @@ class Evaluator:
             return [p]
         if m in ("replace", "replace_all"):
             p.effects.append(Effect("string_replace", line, op=m, on=self.describe(recv_node), args=descs))
-            p.ret = Str.hole("replaced", self.describe(recv_node))
+            # literal-by-literal replacement on a template: exact when the pattern can only occur inside the literal parts
+            # (none of its characters can be produced by a hole next to a literal boundary is not checked: holes of these
+            # templates are register names, identifiers and numerals, the pattern must contain a character outside them)
+            done = None
+            if m == "replace" and isinstance(recv, Str) and len(args) == 2 and all(isinstance(a, Str) and len(a.t) == 1 for a in args):
+                pa, ra = (tmpl_str(next(iter(a.t))) if all(part[0] == "lit" for part in next(iter(a.t))) else None for a in args)
+                if pa and ra is not None and any(not (ch.isalnum() or ch in "_-") for ch in pa):
+                    new_t = set()
+                    for t in recv.t:
+                        new_t.add(tuple(("lit", part[1].replace(pa, ra)) if part[0] == "lit" else part for part in t))
+                    done = Str(new_t)
+            p.ret = done if done is not None else Str.hole("replaced", self.describe(recv_node))
             return [p]
         if m in ("iter", "enumerate", "bytes", "chars"):
             p.ret = Obj("iter:" + self.describe(recv_node))
